@@ -5,6 +5,7 @@
 // non-empty serialize(q) == y byte for byte.
 #include "../engine/src.h"
 #include "../genlib/parsed.h"
+#include "../genlib/parse_input.h"
 
 using namespace verif;
 using namespace Tins;
@@ -86,10 +87,9 @@ bool innermost_payload_nonempty(const PDU& top) {
 
 void prop(Src& s, Ctx& ctx) {
     const std::vector<Entry>& E = entries();
-    const Entry& e = E[s.u8() % E.size()];
-    unsigned placement = s.u8() & 7;
-    std::vector<uint8_t> data = s.rest();
-    if (data.size() > 65535) data.resize(65535);
+    unsigned placement = 0;
+    std::vector<uint8_t> data;
+    const Entry& e = E[gen_parse_input(s, ctx, 0, placement, data)];
     if (!e.serializable) { ctx.excluded("ppi-pktap-not-serializable"); return; }
     std::unique_ptr<PDU> p;
     try {
